@@ -33,15 +33,15 @@ int main(int argc, char** argv)
 {
   FEAT::Runtime::ScopeGuard guard(argc, argv);
   std::vector<Target> tg;
-  tg.push_back({"quad", [](Tape& t, Ctx& c) { dispatch(t, c, cat_quad, false); }, 128, 3, 20000});
-  tg.push_back({"tria", [](Tape& t, Ctx& c) { dispatch(t, c, cat_tria, false); }, 128, 3, 20000});
-  tg.push_back({"hexa", [](Tape& t, Ctx& c) { dispatch(t, c, cat_hexa, false); }, 128, 3, 20000});
-  tg.push_back({"tetra", [](Tape& t, Ctx& c) { dispatch(t, c, cat_tetra, false); }, 128, 3, 20000});
-  tg.push_back({"quad-big", [](Tape& t, Ctx& c) { dispatch(t, c, cat_quad, true); }, 160, 4, 60000});
-  tg.push_back({"tria-big", [](Tape& t, Ctx& c) { dispatch(t, c, cat_tria, true); }, 160, 4, 60000});
-  tg.push_back({"hexa-big", [](Tape& t, Ctx& c) { dispatch(t, c, cat_hexa, true); }, 160, 4, 60000});
-  tg.push_back({"tetra-big", [](Tape& t, Ctx& c) { dispatch(t, c, cat_tetra, true); }, 160, 4, 60000});
-  tg.push_back({"global", [](Tape& t, Ctx& c) { c18::global_case(t, c, false); }, 128, 3, 20000});
-  tg.push_back({"global-big", [](Tape& t, Ctx& c) { c18::global_case(t, c, true); }, 160, 4, 60000});
+  tg.push_back({"quad", [](Tape& t, Ctx& c) { dispatch(t, c, cat_quad, false); }, 64, 4, 20000});
+  tg.push_back({"tria", [](Tape& t, Ctx& c) { dispatch(t, c, cat_tria, false); }, 64, 4, 20000});
+  tg.push_back({"hexa", [](Tape& t, Ctx& c) { dispatch(t, c, cat_hexa, false); }, 64, 4, 20000});
+  tg.push_back({"tetra", [](Tape& t, Ctx& c) { dispatch(t, c, cat_tetra, false); }, 64, 4, 20000});
+  tg.push_back({"quad-big", [](Tape& t, Ctx& c) { dispatch(t, c, cat_quad, true); }, 96, 5, 60000});
+  tg.push_back({"tria-big", [](Tape& t, Ctx& c) { dispatch(t, c, cat_tria, true); }, 96, 5, 60000});
+  tg.push_back({"hexa-big", [](Tape& t, Ctx& c) { dispatch(t, c, cat_hexa, true); }, 96, 5, 60000});
+  tg.push_back({"tetra-big", [](Tape& t, Ctx& c) { dispatch(t, c, cat_tetra, true); }, 96, 5, 60000});
+  tg.push_back({"global", [](Tape& t, Ctx& c) { c18::global_case(t, c, false); }, 64, 4, 20000});
+  tg.push_back({"global-big", [](Tape& t, Ctx& c) { c18::global_case(t, c, true); }, 96, 5, 60000});
   return main_impl(argc, argv, tg);
 }
